@@ -75,6 +75,7 @@ class Runtime:
         self.observations = []
         self.rand = list(inputs.get("__random__", []))
         self.rand_ok = True
+        self.timer = False
 
     def api(self):
         rt = self
@@ -153,6 +154,9 @@ class Runtime:
         def set_range_cap(k):
             pass
 
+        def set_loop_bound(k):
+            rt.timer = True
+
         def load_class(module, qualname):
             o = importlib.import_module(module)
             for part in qualname.split("."):
@@ -164,7 +168,7 @@ class Runtime:
 
         return dict(sym_int=sym_int, sym_bool=sym_bool, sym_bytes=sym_bytes, sym_str=sym_str, assume=assume,
                     check=check, reach=reach, observe=observe, fork=fork, cp1252_enc=cp1252_enc, cp1252_dec=cp1252_dec,
-                    cp1252_ok=cp1252_ok, str_of=str_of, cps_of=cps_of, tdiv=tdiv, exc_name=exc_name, is_vsx=is_vsx, forked=forked, load_class=load_class, set_range_cap=set_range_cap)
+                    cp1252_ok=cp1252_ok, str_of=str_of, cps_of=cps_of, tdiv=tdiv, exc_name=exc_name, is_vsx=is_vsx, forked=forked, load_class=load_class, set_range_cap=set_range_cap, set_loop_bound=set_loop_bound)
 
     def patch_random(self):
         import random
@@ -218,10 +222,22 @@ def run_one(harness_path, fn, args, inputs):
     g = load_harness(harness_path)
     g.update(rt.api())
     rt.patch_random()
+    import signal
+
+    class _Timeout(Exception):
+        pass
+
+    def _on_alarm(signum, frame):
+        raise _Timeout()
+
+    signal.signal(signal.SIGALRM, _on_alarm)
+    signal.setitimer(signal.ITIMER_REAL, 20.0)       # a run that does not finish is reported as NonTermination
     try:
         try:
             g[fn](*to_tuple(args))
             out = {"status": "ok"}
+        except _Timeout:
+            out = {"status": "uncaught", "label": "uncaught:NonTermination", "exc": "NonTermination", "message": "no result within 20 s"}
         except AssumeFailed:
             out = {"status": "assume_failed"}
         except CheckFailed as c:
@@ -232,6 +248,7 @@ def run_one(harness_path, fn, args, inputs):
             out = {"status": "uncaught", "label": "uncaught:" + type(e).__name__, "exc": type(e).__name__,
                    "message": str(e)[:300]}
     finally:
+        signal.setitimer(signal.ITIMER_REAL, 0)
         rt.unpatch_random()
     if not rt.rand_ok:
         out["random_contract_broken"] = True
